@@ -436,6 +436,27 @@ func checkC09(r *Run) {
 			}
 		}
 		if srvRet == nil {
+			// the clause hands the call's error and the acknowledgement to an ack-or-error helper
+			for _, ret := range returnsOf(cl.fn) {
+				if !(cl.body == ret.Block() || cl.body.Dominates(ret.Block())) {
+					continue
+				}
+				if ack, ok := ackHelperReturn(p, ret, cl.call); ok {
+					if f2, n2, ok := compositeFields(ack); ok && n2 != nil {
+						rlit, srvRet = f2, ret
+						r.Check(types.Identical(n2, ta.AssertedType), "msgflow", "Session."+name+": server replies with the type the client expects", ret.Pos(),
+							"server returns "+shortType(n2)+", client expects "+shortType(ta.AssertedType))
+					} else if mi, isMI := ack.(*ssa.MakeInterface); isMI {
+						if f3, n3, ok := compositeFields(mi.X); ok && n3 != nil {
+							rlit, srvRet = f3, ret
+							r.Check(types.Identical(n3, ta.AssertedType), "msgflow", "Session."+name+": server replies with the type the client expects", ret.Pos(),
+								"server returns "+shortType(n3)+", client expects "+shortType(ta.AssertedType))
+						}
+					}
+				}
+			}
+		}
+		if srvRet == nil {
 			r.Undecided("msgflow", "Session."+name+": server success reply", h.Pos(), "no success return with a reply literal found in the clause")
 			continue
 		}
@@ -540,6 +561,11 @@ func checkC09(r *Run) {
 	ioDeadlineArmed(r, "io-deadline")
 	// each caller's frame carries that caller's message: the marshalled bytes are not shared between calls
 	c01MarshalFresh(r)
+	// "up to the documented wire limits": an oversize request is refused locally with the exact excess and the
+	// session stays usable — the sender-side partition of maybeTruncate (shared with C02)
+	if mt := p.Fn("p9p:(*channel).maybeTruncate"); mt != nil {
+		c02Truncate(r, mt)
+	}
 	// "… and all of them complete", "up to the documented wire limits": one caller's failed request write must not
 	// end the owner loop for the others (rule shared with C12); a frame of exactly msize — what a clipped write
 	// or a full read produces — is accepted by the receiving channel (rules shared with C03)
